@@ -633,6 +633,42 @@ fn sparse_entries(out: &mut Vec<(String, String)>) {
                     verdict(out, "Sparse::from_vecs (col_start decreasing)", ar.clone(), true, true, probe(&setup0, &key0, &|_| { let (v, r0, mut cs) = good(); cs[1] = 2; cs[2] = 1; if c == 2 { cs[2] = 1; } let _ = Sparse::from_vecs(rr, c, v, r0, cs); }));
                 }
             }
+            // col_start_from_index: one column index per stored entry, each below cols (seventh hunt: a longer vector was truncated, the
+            // index cols was counted in the slot of the total)
+            {
+                let good: Vec<usize> = setup1().col_index().vec.clone();
+                let nz = good.len();
+                let mut cands: Vec<(String, Vec<usize>, bool)> = vec![("the matrix's own col_index".into(), good.clone(), false)];
+                let mut longer = good.clone();
+                longer.push(c - 1);
+                cands.push(("one index too many".into(), longer, true));
+                let mut longer2 = good.clone();
+                longer2.extend_from_slice(&[0, 0, 0]);
+                cands.push(("three indices too many".into(), longer2, true));
+                if nz > 0 {
+                    let mut shorter = good.clone();
+                    shorter.pop();
+                    cands.push(("one index too few".into(), shorter, true));
+                    for pos in [0, nz - 1] {
+                        for bad_col in [c, c + 1] {
+                            let mut w = good.clone();
+                            w[pos] = bad_col;
+                            cands.push((format!("index {} at position {}", bad_col, pos), w, true));
+                        }
+                    }
+                }
+                for (what, ci, bad) in cands {
+                    let civ = Vector::create(ci.clone());
+                    let res = probe(&setup1, &skey, &|s| { let _ = s.col_start_from_index(&civ); });
+                    verdict(out, "Sparse::col_start_from_index", format!("{}x{} ({} entries) {}", rr, c, nz, what), bad, true, res);
+                    if !bad {
+                        let s0 = setup1();
+                        if s0.col_start_from_index(&civ) != s0.col_start {
+                            out.push((format!("Sparse::col_start_from_index {}x{}", rr, c), "the starts computed from the matrix's own column indices differ from col_start".into()));
+                        }
+                    }
+                }
+            }
             for i in 0..=rr + 1 {
                 for j in 0..=c + 1 {
                     let bad = i >= rr || j >= c;
@@ -752,6 +788,71 @@ fn mesh_entries(out: &mut Vec<(String, String)>) {
             }
         }
     }
+}
+
+/// variable / node arguments of the mesh operations that have no other argument to be caught by: on a mesh one node wide (or empty)
+/// in a direction the loops that would index the missing variable are empty (seventh hunt)
+fn mesh_argument_entries(out: &mut Vec<(String, String)>) {
+    for n in 1..=4usize {
+        for nv in 1..=3usize {
+            let setup = || {
+                let mut m = Mesh1D::<f64, f64>::new(vecf(n), nv);
+                for i in 0..n {
+                    for v in 0..nv {
+                        m[i][v] = (i * 10 + v) as f64;
+                    }
+                }
+                m
+            };
+            let key = |m: &Mesh1D<f64, f64>| format!("{:?}{:?}", m.nodes(), (0..m.nnodes()).map(|i| m.get_nodes_vars(i).vec).collect::<Vec<_>>());
+            for v in 0..=nv + 1 {
+                verdict(out, "Mesh1D::trapezium", format!("{} nodes {} vars, var {}", n, nv, v), v >= nv, true, probe(&setup, &key, &|m| { let _ = m.trapezium(v); }));
+            }
+        }
+    }
+    let dir = std::path::PathBuf::from(format!("/verif/target/run/c20_mesh2_{}", std::process::id()));
+    let _ = std::fs::create_dir_all(&dir);
+    for nx in 0..=3usize {
+        for ny in 0..=3usize {
+            for nv in 1..=2usize {
+                let setup = || {
+                    let mut m = Mesh2D::<f64>::new(vecf(nx), vecf(ny), nv);
+                    for i in 0..nx {
+                        for j in 0..ny {
+                            for v in 0..nv {
+                                m[(i, j)][v] = (i * 100 + j * 10 + v) as f64;
+                            }
+                        }
+                    }
+                    m
+                };
+                let key = |m: &Mesh2D<f64>| {
+                    let (a, b) = m.nnodes();
+                    format!("{:?}", (0..a).flat_map(|i| (0..b).map(move |j| (i, j))).map(|(i, j)| m.get_nodes_vars(i, j).vec).collect::<Vec<_>>())
+                };
+                let shape = format!("{}x{} mesh {} vars", nx, ny, nv);
+                for v in 0..=nv + 1 {
+                    if nx >= 1 && ny >= 1 {
+                        verdict(out, "Mesh2D::trapezium", format!("{} var {}", shape, v), v >= nv, true, probe(&setup, &key, &|m| { let _ = m.trapezium(v); }));
+                        verdict(out, "Mesh2D::square_trapezium", format!("{} var {}", shape, v), v >= nv, true, probe(&setup, &key, &|m| { let _ = m.square_trapezium(v); }));
+                    }
+                    verdict(out, "Mesh2D::apply", format!("{} var {}", shape, v), v >= nv, false, probe(&setup, &key, &|m| { m.apply(&|x, y| x + y, v); }));
+                    let file = dir.join(format!("v_{}_{}_{}_{}.dat", nx, ny, nv, v));
+                    verdict(out, "Mesh2D::output_var", format!("{} var {}", shape, v), v >= nv, true, probe(&setup, &key, &|m| { m.output_var(file.to_str().unwrap(), v, 4); }));
+                    if v >= nv && file.exists() {
+                        out.push((format!("Mesh2D::output_var {} var {}", shape, v), "a file was created for a variable that does not exist".into()));
+                    }
+                }
+                for i in 0..=nx + 1 {
+                    verdict(out, "Mesh2D::cross_section_xnode (degenerate shapes)", format!("{} node {}", shape, i), i >= nx, true, probe(&setup, &key, &|m| { let _ = m.cross_section_xnode(i); }));
+                }
+                for j in 0..=ny + 1 {
+                    verdict(out, "Mesh2D::cross_section_ynode (degenerate shapes)", format!("{} node {}", shape, j), j >= ny, true, probe(&setup, &key, &|m| { let _ = m.cross_section_ynode(j); }));
+                }
+            }
+        }
+    }
+    let _ = std::fs::remove_dir_all(&dir);
 }
 
 fn polynomial_entries(out: &mut Vec<(String, String)>) {
@@ -1158,6 +1259,7 @@ fn main() {
         ("Tridiagonal", Box::new(tridiagonal_entries)),
         ("Sparse", Box::new(sparse_entries)),
         ("Mesh1D/Mesh2D", Box::new(mesh_entries)),
+        ("Mesh1D/Mesh2D variable and node arguments, degenerate shapes", Box::new(mesh_argument_entries)),
         ("Polynomial", Box::new(polynomial_entries)),
         ("sizes beyond 6", Box::new(large_size_entries)),
         ("zero / non-finite operands", Box::new(zero_operand_entries)),
